@@ -31,6 +31,10 @@ fn parse_modified_hdrs(
 ) -> Result<(bool, bool), &'static str> {
     let precondition_failed = if !etag::any_match(etag, req_hdrs)? {
         true
+    } else if req_hdrs.contains_key(header::IF_MATCH) {
+        // RFC 7232 section 3.4: a recipient MUST ignore If-Unmodified-Since if the request
+        // contains an If-Match header field.
+        false
     } else if let (Some(ref m), Some(since)) =
         (last_modified, req_hdrs.get(header::IF_UNMODIFIED_SINCE))
     {
